@@ -46,7 +46,7 @@ impl std::ops::Deref for Missing {
 #[derive(Default)]
 pub struct Rec {
     pub answers: Vec<(usize, bool)>,
-    pub snaps: Vec<(u32, u32)>,
+    pub snaps: Vec<(u32, u32, u64)>,
     /// number of rules (a trigger shared through with_many takes its rule index from its position)
     pub nrules: usize,
 }
@@ -57,6 +57,8 @@ struct RecTrigger {
     fixed: Option<bool>,
     rule: usize,
     rec: Arc<Mutex<Rec>>,
+    /// the trigger keeps a count in the state: +1 on the logged counter state per evaluation
+    bump: bool,
 }
 impl Serialize for RecTrigger {
     fn serialize<S: serde::Serializer>(&self, s: S) -> Result<S::Ok, S::Error> {
@@ -71,6 +73,9 @@ impl Condition<TagP> for RecTrigger {
         Ok(())
     }
     fn evaluate(&self, p: &TagP, s: &mut State<TagP>) -> ExecResult<bool> {
+        if self.bump {
+            *s.borrow_value_mut::<Ctr>() += 1;
+        }
         let r = match (&self.inner, self.fixed) {
             (Some(i), _) => i.evaluate(p, s)?,
             (None, Some(b)) => b,
@@ -105,13 +110,14 @@ impl Serialize for Snap {
 }
 impl Component<TagP> for Snap {
     fn execute(&self, _p: &TagP, s: &mut State<TagP>) -> ExecResult<()> {
-        let v = (s.get_value::<Ctr>(), s.iterations());
+        let v = (s.get_value::<Ctr>(), s.iterations(), s.try_get_value::<mahf::state::common::Progress<ValueOf<Ctr>>>().unwrap_or(f64::NAN).to_bits());
         self.rec.lock().unwrap().snaps.push(v);
         Ok(())
     }
 }
 
-/// (trigger kind, extractor kind): triggers 0 always, 1 never, 2 every second iteration, 3 scripted, 4 change of the logged state;
+/// (trigger kind, extractor kind): triggers 0 always, 1 never, 2 every second iteration, 3 scripted, 4 change of the logged state,
+/// 5 always + writes the logged counter state on every evaluation;
 /// extractors 0 present state (ValueOf), 1 missing state, 2 iteration counter, 3 the present state again (IdLens, same name),
 /// 4 a Progress state whose value lies outside [0, 1]
 pub type Rule = (u8, u8);
@@ -138,7 +144,7 @@ fn name_progress() -> &'static str {
     std::any::type_name::<mahf::state::common::Progress<ValueOf<Ctr>>>()
 }
 
-type LogObs = (Result<Value, String>, Vec<(usize, bool)>, Vec<(u32, u32)>, Option<Value>, Option<Value>);
+type LogObs = (Result<Value, String>, Vec<(usize, bool)>, Vec<(u32, u32, u64)>, Option<Value>, Option<Value>);
 
 fn run_log_case(c: &LogCase, export: bool) -> LogObs {
     let rec = Arc::new(Mutex::new(Rec::default()));
@@ -163,11 +169,12 @@ fn run_log_case(c: &LogCase, export: bool) -> LogObs {
         st.configure_log(|cfg| {
             let mk_trig = |t: u8, rule: usize| -> Box<dyn Condition<TagP>> {
                 Box::new(match t {
-                    0 => RecTrigger { inner: Some(EveryN::iterations(1)), fixed: None, rule, rec: rec2.clone() },
-                    1 => RecTrigger { inner: None, fixed: Some(false), rule, rec: rec2.clone() },
-                    2 => RecTrigger { inner: Some(EveryN::iterations(2)), fixed: None, rule, rec: rec2.clone() },
-                    4 => RecTrigger { inner: Some(mahf::conditions::ChangeOf::new(mahf::conditions::common::PartialEqChecker::new::<u32>(), ValueOf::<Ctr>::new())), fixed: None, rule, rec: rec2.clone() },
-                    _ => RecTrigger { inner: None, fixed: None, rule, rec: rec2.clone() },
+                    0 => RecTrigger { inner: Some(EveryN::iterations(1)), fixed: None, rule, rec: rec2.clone(), bump: false },
+                    1 => RecTrigger { inner: None, fixed: Some(false), rule, rec: rec2.clone(), bump: false },
+                    5 => RecTrigger { inner: None, fixed: Some(true), rule, rec: rec2.clone(), bump: true },
+                    2 => RecTrigger { inner: Some(EveryN::iterations(2)), fixed: None, rule, rec: rec2.clone(), bump: false },
+                    4 => RecTrigger { inner: Some(mahf::conditions::ChangeOf::new(mahf::conditions::common::PartialEqChecker::new::<u32>(), ValueOf::<Ctr>::new())), fixed: None, rule, rec: rec2.clone(), bump: false },
+                    _ => RecTrigger { inner: None, fixed: None, rule, rec: rec2.clone(), bump: false },
                 })
             };
             let mk_ext = |e: u8| -> Box<dyn mahf::logging::extractor::EntryExtractor<TagP>> {
@@ -319,7 +326,7 @@ fn sorted_steps(plain: &Value) -> Value {
     Value::Array(steps)
 }
 
-fn expected_log(c: &LogCase, answers: &[(usize, bool)], snaps: &[(u32, u32)]) -> Result<Vec<Vec<(String, Value)>>, String> {
+fn expected_log(c: &LogCase, answers: &[(usize, bool)], snaps: &[(u32, u32, u64)]) -> Result<Vec<Vec<(String, Value)>>, String> {
     let r = c.rules.len();
     if r == 0 {
         return Ok(vec![]);
@@ -333,9 +340,13 @@ fn expected_log(c: &LogCase, answers: &[(usize, bool)], snaps: &[(u32, u32)]) ->
             // (triggers shared through with_many number themselves by position: never out of order)
             return Err(format!("triggers evaluated out of rule order: {:?}", chunk));
         }
-        let (ctr, it) = snaps[e];
+        let (mut ctr, it, prog) = snaps[e];
         let mut step: Vec<(String, Value)> = vec![];
         for (i, (_, fired)) in chunk.iter().enumerate() {
+            // a counting trigger has written the counter state by the time its rule (and every later one) extracts
+            if c.rules[i].0 == 5 {
+                ctr += 1;
+            }
             if !*fired {
                 continue;
             }
@@ -343,7 +354,7 @@ fn expected_log(c: &LogCase, answers: &[(usize, bool)], snaps: &[(u32, u32)]) ->
                 0 | 3 => (name_ctr().to_string(), json!(ctr)),
                 1 => (name_missing().to_string(), Value::Null),
                 2 => (name_it().to_string(), json!(it)),
-                _ => (name_progress().to_string(), json!(ctr as f64 / 8.0 - 1.5)),
+                _ => (name_progress().to_string(), json!(f64::from_bits(prog))),
             };
             if !step.iter().any(|s| s.0 == name) {
                 step.push((name, value));
@@ -456,6 +467,65 @@ fn check_with_common(n: u32, a: u32, b: u32) -> Option<(String, String)> {
     None
 }
 
+/// `configure_log` called again from inside a scope (by a debug step) reaches the one log configuration of the run:
+/// the rule it adds applies to every logger from then on, and the rules configured before keep applying inside the scope.
+fn check_configure_in_scope(n: u32, via_scope_init: bool) -> Option<(String, String)> {
+    let rec = Arc::new(Mutex::new(Rec::default()));
+    let snap: Box<dyn Component<TagP>> = Box::new(Snap { rec: rec.clone() });
+    let snap2 = snap.clone();
+    fn add_rule(st: &mut State<TagP>) -> ExecResult<()> {
+        st.configure_log(|cfg| {
+            cfg.with(EveryN::iterations(1), ValueOf::<Missing>::entry());
+            Ok(())
+        })
+    }
+    let config = Configuration::<TagP>::builder()
+        .while_(LessThanN::iterations(n), |b| {
+            let b = b.do_(Box::new(Bump));
+            let b = if via_scope_init {
+                b.do_(mahf::components::Scope::new_with(add_rule, Configuration::builder().do_(snap).do_(Logger::new()).build_component(), |_, _| Ok(())))
+            } else {
+                b.scope_(|b| b.debug(|_p, st| add_rule(st).unwrap()).do_(snap).do_(Logger::new()))
+            };
+            b.do_(snap2).do_(Logger::new())
+        })
+        .build();
+    let r = catch(|| {
+        config.optimize_with(&TagP, |st| {
+            st.insert(mahf::Random::new(1));
+            st.insert(Ctr(10));
+            st.insert(mahf::state::common::Progress::<ValueOf<Ctr>>::default());
+            st.configure_log(|cfg| {
+                cfg.with(EveryN::iterations(1), ValueOf::<Ctr>::entry());
+                Ok(())
+            })
+        })
+    });
+    let ctx = |w: String| format!("rule (every iteration, Ctr) configured before the run; loop of {} passes {{ scope {{ {} adds rule (every iteration, Missing) through configure_log; logger }}; logger }}: {}", n, if via_scope_init { "the scope's state initialiser" } else { "a debug step" }, w);
+    let st = match r {
+        Err(p) => return Some(("C15 log configure_log-in-scope panic".into(), ctx(p))),
+        Ok(Err(e)) => return Some(("C15 log configure_log-in-scope error".into(), ctx(format!("{:#}", e)))),
+        Ok(Ok(st)) => st,
+    };
+    let snaps = rec.lock().unwrap().snaps.clone();
+    let log = serde_json::to_value(&*st.log()).unwrap_or(Value::Null);
+    let steps = log.as_array().cloned().unwrap_or_default();
+    if steps.len() != snaps.len() || snaps.len() != 2 * n as usize {
+        return Some(("C15 log configure_log-in-scope step-count".into(), ctx(format!("{} steps logged by {} logger executions; log {}", steps.len(), snaps.len(), log))));
+    }
+    for (k, (s, (ctr, it, _))) in steps.iter().zip(&snaps).enumerate() {
+        let got: Vec<(String, Value)> = s.as_array().cloned().unwrap_or_default().iter().map(|x| (x["name"].as_str().unwrap_or("?").to_string(), x["value"].clone())).collect();
+        let mut want = vec![(name_ctr().to_string(), json!(ctr)), (name_it().to_string(), json!(it)), (name_missing().to_string(), Value::Null)];
+        let mut g = got.clone();
+        g.sort_by(|a, b| a.0.cmp(&b.0));
+        want.sort_by(|a, b| a.0.cmp(&b.0));
+        if g != want {
+            return Some(("C15 log configure_log-in-scope entry-set".into(), ctx(format!("step {} ({} logger) holds {:?}, expected {:?}", k, if k % 2 == 0 { "inner" } else { "outer" }, got, want))));
+        }
+    }
+    None
+}
+
 pub fn log_cases(thorough: bool) -> Vec<LogCase> {
     let mut all_rules: Vec<Rule> = (0..4u8).flat_map(|t| (0..4u8).map(move |e| (t, e))).collect();
     // a state whose serialised value leaves [0, 1]
@@ -464,6 +534,9 @@ pub fn log_cases(thorough: bool) -> Vec<LogCase> {
     // a stateful trigger (change of the logged state) that only works if the logger initialises its triggers
     all_rules.push((4, 0));
     all_rules.push((4, 2));
+    // a trigger that writes the state an earlier / later rule logs (a condition that keeps its count in the state)
+    all_rules.push((5, 0));
+    all_rules.push((5, 2));
     let max_rules = if thorough { 3 } else { 2 };
     let mut sets: Vec<Vec<Rule>> = vec![vec![]];
     for l in 1..=max_rules {
@@ -554,8 +627,9 @@ pub fn one_apart() -> Vec<(&'static str, Vec<(String, RonR)>)> {
 
 pub fn run(rep: &mut Report) {
     let thorough = rep.tier == Tier::Thorough;
-    rep.alpha("log: all rule sets of <= 2 (quick) / 3 (thorough) rules over triggers {every iteration, never, every second iteration, scripted} x extractors {present state via ValueOf, missing state, iteration counter, the present state again via IdLens (repeated name)} x logger placements {in the loop body, after the loop, inside a scope in the loop, twice in the loop body} x 0..3 iterations; scripted triggers answer by explorer choice");
+    rep.alpha("log: all rule sets of <= 2 (quick) / 3 (thorough) rules over triggers {every iteration, never, every second iteration, scripted, change of the logged state, a counting trigger that writes the logged state on every evaluation} x extractors {present state via ValueOf, missing state, iteration counter, the present state again via IdLens (repeated name)} x logger placements {in the loop body, after the loop, inside a scope in the loop, twice in the loop body} x 0..3 iterations; scripted triggers answer by explorer choice");
     rep.alpha("log export: to_json and to_cbor of every distinct log produced, decoded back (name table re-expanded)");
+    rep.alpha("configure_log called again from inside a scope (debug step / scope state initialiser), loggers inside and outside the scope, 1..3 iterations");
     rep.alpha("with_common for two triggers (5 trigger pairs); par_experiment log files for problem names with and without dots");
     rep.alpha("configuration export: RON of every generated configuration tree (all leaf effects up to 3 / 4 nodes, shapes up to 4 / 5 nodes), of all 21 templates in every parameter set of the run table, of a base parameter set and every one-parameter-apart variant per template, and of clones; Configuration::to_ron into a file for every template");
     rep.assume("logger placements in configurations without any loop have no iteration count to report and are outside the alphabet; scopes with initialiser/merger functions are outside the export alphabet (function pointers are not serialised)");
@@ -609,6 +683,16 @@ pub fn run(rep: &mut Report) {
         part.states += 1;
         if let Some((sg, d)) = check_with_common(n, a, b) {
             part.violate(sg, d, json!({"kind": "with_common", "n": n, "a": a, "b": b}));
+        }
+    }
+    for n in 1..=3u32 {
+        for via in [false, true] {
+            part.transitions += 2 * n as u64;
+            part.traces += 1;
+            part.states += 1;
+            if let Some((sg, d)) = check_configure_in_scope(n, via) {
+                part.violate(sg, d, json!({"kind": "configure_in_scope", "n": n, "via": via}));
+            }
         }
     }
     // the batch runner writes one log file per (problem, run), also for problem names that contain dots
@@ -798,6 +882,7 @@ pub fn run(rep: &mut Report) {
 pub fn replay(case: &Value) -> Result<Vec<(String, String)>, String> {
     match case["kind"].as_str().unwrap_or("") {
         "with_common" => Ok(check_with_common(case["n"].as_u64().unwrap_or(7) as u32, case["a"].as_u64().unwrap_or(2) as u32, case["b"].as_u64().unwrap_or(3) as u32).into_iter().collect()),
+        "configure_in_scope" => Ok(check_configure_in_scope(case["n"].as_u64().unwrap_or(2) as u32, case["via"].as_bool().unwrap_or(false)).into_iter().collect()),
         "exp-names" => Ok(crate::props::c08::check_par_experiment_named(3, &["sphere_shift0.25", "berlin52.tsp", "plain"])),
         "log" => {
             let rules: Vec<Rule> = case["rules"].as_array().ok_or("no rules")?.iter().map(|r| (r[0].as_u64().unwrap() as u8, r[1].as_u64().unwrap() as u8)).collect();
